@@ -7,6 +7,7 @@ import (
 	"bufio"
 	"crypto/sha256"
 	"encoding/hex"
+	"encoding/json"
 	"fmt"
 	"net/http"
 	"net/http/httptest"
@@ -760,10 +761,36 @@ func Run(prop string, seed uint64, o Opts, raceLogPath string) *det.CaseResult {
 			out.Inconclusive = "no quiescence within 30s, no blocked core goroutine identified"
 		}
 	}
-	// final state oracles
+	// final state oracles. The snapshot reads nodes, queues and applications one after the other: it is only
+	// meaningful when nothing moves while it is taken. Two snapshots around a pause must be identical and the trace
+	// must not have grown, otherwise the run is inconclusive (not a violation).
+	var w *world.World
 	if quiet {
 		pc := c.Partition()
-		w := world.Snap(pc)
+		stable := false
+		for try := 0; try < 8 && !stable; try++ {
+			n0 := c.S.TraceLen()
+			w1 := world.Snap(pc)
+			time.Sleep(150 * time.Millisecond)
+			if !c.Barrier(10 * time.Second) {
+				break
+			}
+			w2 := world.Snap(pc)
+			b1, _ := json.Marshal(w1)
+			b2, _ := json.Marshal(w2)
+			if c.S.TraceLen() == n0 && string(b1) == string(b2) {
+				stable, w = true, w2
+			} else {
+				r.deliver(rng, true)
+				time.Sleep(300 * time.Millisecond)
+			}
+		}
+		if !stable {
+			quiet = false
+			out.Inconclusive = "the final state kept changing, no stable snapshot"
+		}
+	}
+	if quiet {
 		e := det.NewEngine(c, confA)
 		e.CheckProp = prop
 		e.Hist.Reloads = int(r.reloads.Load())
